@@ -143,7 +143,7 @@ def run(ctx):
         dnames = set()
         for st in dels:
             dnames |= au.names_in(st.value.args[1])
-        org = ctx.origins(fn, values_only=True)
+        org = ctx.origins(fn)     # dependency (through counts and selectors too), not value origin
         # how is the mapping index (re)established in this function?
         index_exprs = []   # (stmt, [value exprs])
         for st in au.walk_stmts(fn.body):
